@@ -209,12 +209,14 @@ func vSplit(x, lo, hi int) int {
 // vSameBits: bit equality for scalars (NaN == NaN, +0 != -0); == for everything else.
 func vSameBits(a, b interface{}) bool {
 	switch x := a.(type) {
+	// (floats: the same bit pattern, or both NaN - the SMT floating-point theory has one NaN, and natively the payload/sign of a
+	// NaN produced from two NaN operands depends on the operand order the compiler happened to choose)
 	case float32:
 		y, ok := b.(float32)
-		return ok && math.Float32bits(x) == math.Float32bits(y)
+		return ok && (math.Float32bits(x) == math.Float32bits(y) || (x != x && y != y))
 	case float64:
 		y, ok := b.(float64)
-		return ok && math.Float64bits(x) == math.Float64bits(y)
+		return ok && (math.Float64bits(x) == math.Float64bits(y) || (x != x && y != y))
 	case complex64:
 		y, ok := b.(complex64)
 		return ok && vSameBits(real(x), real(y)) && vSameBits(imag(x), imag(y))
